@@ -33,4 +33,4 @@ def run(tier):
     progs = gen.c06_scope(tier)
     return run_e2e_property("C06", tier, EXPLANATION, "DESIGN §4 C06",
                             [("e2e-entity-conditions", progs, "entity prototypes x enable expressions, shared sources, entity outputs")],
-                            contract_modules=["contracts.c06", "contracts.c01b", "contracts.c07b", "contracts.c16b", "contracts.cdispatch"], extra=_apply_writes_box)
+                            contract_modules=["contracts.c06", "contracts.c01b", "contracts.c01c", "contracts.c07b", "contracts.c16b", "contracts.cdispatch"], extra=_apply_writes_box)
